@@ -136,6 +136,39 @@ def check(ctx) -> Result:
     resolves = any(isinstance(n, ast.Call) and src(n.func) == "loss.get" for n in walk_no_nested(cl.node)) and any(isinstance(n, ast.Call) and src(n.func) == "isinstance" and [src(a_) for a_ in n.args] == ["loss", "Parameter"] for n in walk_no_nested(cl.node))
     res.add(resolves, "LB-check-loss-resolves", "check_loss", cl.site(), "check_loss", "Parameter losses are resolved before the range check", "check_loss no longer resolves Parameter values before checking", construct="check_loss")
 
+    # a Loss element is recorded whenever the loss is a Parameter: whether it is recorded must not depend on the
+    # value the Parameter happens to hold when the component is added (it can be raised later)
+    from ..guards import cnf as _cnf
+    Cc = ctx.ix.module(CIRC).classes.get("Circuit")
+    for mname in ("bs", "ps"):
+        mf = Cc.methods.get(mname)
+        if mf is None:
+            continue
+        parm = {c_: n_ for n_ in ast.walk(mf.node) for c_ in ast.iter_child_nodes(n_)}
+        losses = [c_ for c_ in walk_no_nested(mf.node) if isinstance(c_, ast.Call) and src(c_.func) == "Loss"]
+        lp = [a_ for a_ in mf.params() if "loss" in a_]
+        if not losses or not lp:
+            res.frozen(False, "LB-loss-recorded-for-parameters", f"Circuit.{mname}", mf.site(), mf.qualname, "", "construction of the Loss element not recognised", construct="")
+            continue
+        nrm = Normaliser(lambda e: repr(e.value) if isinstance(e, ast.Constant) else None, fn=mf.node)
+        for c_ in losses:
+            guards = []
+            x = c_
+            while x is not None and x is not mf.node:
+                q_ = parm.get(x)
+                if isinstance(q_, ast.If) and x is not q_.test:
+                    guards.append((q_, x in q_.body))
+                x = q_
+            okp = True
+            why = ""
+            for g, in_body in guards:
+                clauses = _cnf(g.test, nrm, negate=not in_body)
+                for cl in clauses:
+                    if not any(l.op == "isinstance" and l.a == lp[0] and "Parameter" in l.b for l in cl):
+                        okp = False
+                        why = " or ".join(map(str, cl))
+            res.add(okp, "LB-loss-recorded-for-parameters", f"Circuit.{mname}:{src(c_)[:30]}", mf.site(c_), mf.qualname, "the Loss element is recorded whenever the loss is a Parameter (whatever its current value)",
+                    f"the Loss element is only recorded when `{why}` holds, which a Parameter currently at 0 does not satisfy: raising that Parameter later never changes U_full, and get_all_params does not list it", construct=src(c_)[:100])
     # ---- no cache: U / U_full / _build / _build_process store nothing on self and build on each read
     C = ctx.ix.module(CIRC).classes.get("Circuit")
     for name, kind in (("U", "getter"), ("U_full", "getter"), ("_build", None), ("_build_process", None)):
